@@ -240,6 +240,9 @@ impl Prop for C19 {
             Ok(s) => s,
             Err(_) => return RunOut::skip("parser-rejected"),
         };
+        // schedule dimension "late loop": the recording / replaying instance sometimes covers
+        // 2 or 5 ms per loop iteration (the fresh instance that types the keys again does not)
+        st.batch = case.param_u64("batch").unwrap_or([1u64, 1, 1, 1, 1, 1, 2, 5][(case.seed % 8) as usize]);
         let pop = case.param("pop").unwrap_or("identity").to_string();
         let ridx = case.param_u64("replay_op_idx").unwrap_or(0) as usize;
         let mut o = RunOut::pass();
